@@ -60,6 +60,27 @@ pub fn shared_cfg(cfg: &EpCfg) -> SharedCfg {
     SharedCfg::new("SIM").add(m).add(io).into()
 }
 
+/// The same signature computed from a packet of the independent codec (user properties in wire order, then
+/// the reason string): what the application must be handed for an acknowledgement the peer sent.
+pub fn rc_props_sig(props: &crate::refcodec::Props) -> u64 {
+    use crate::refcodec::PropVal;
+    let users: Vec<(&String, &String)> = props.iter().filter_map(|(id, v)| match (id, v) { (38, PropVal::Pair(k, v)) => Some((k, v)), _ => None }).collect();
+    let reason = props.iter().find_map(|(id, v)| match (id, v) { (31, PropVal::Str(s)) => Some(s), _ => None });
+    if users.is_empty() && reason.is_none() {
+        return 0;
+    }
+    let mut f = Fnv::default();
+    for (k, v) in users {
+        sig_str(&mut f, k);
+        sig_str(&mut f, v);
+    }
+    if let Some(r) = reason {
+        f.write(b"R");
+        sig_str(&mut f, r);
+    }
+    f.0
+}
+
 fn sig_str(f: &mut Fnv, s: &str) {
     f.write_str(s);
 }
